@@ -180,10 +180,13 @@ class SimLink:
             self.fabric.call_protocol(t.producer.resumeProducing)
         return data
 
-    def can_pull(self, end):
+    def can_pull(self, end, highwater=0):
+        """A pull producer is asked for more as soon as the local write buffer is empty, i.e. as soon as
+        the bytes were handed to the kernel - not when the peer has read them.  `highwater` is how many
+        bytes may be in flight (kernel buffers) before we stop asking."""
         t = self.ends[end]
-        return (t.connected and t.producer is not None and not t.streaming and not t.out
-                and not self.cut)
+        return (t.connected and t.producer is not None and not t.streaming and t.buffered() <= highwater
+                and not self.cut and not t.disconnecting)
 
     def pull(self, end):
         t = self.ends[end]
@@ -431,6 +434,9 @@ class SimReactor(MemoryReactorClock):
 
     def live_links(self):
         return [l for l in self.links if not l.dead()]
+
+
+ConnectionDone = ConnectionDone
 
 
 class _ProtocolRaised(Exception):
